@@ -191,8 +191,9 @@ pub fn apply_narrowing(
         }
     }
 
-    // Also narrow any bindings in the current scope whose provenance matches.
-    if !matches!(provenance, Provenance::Unknown)
+    // Also narrow any bindings in the current scope whose provenance matches — provided the
+    // provenance pins down the value, so that matching provenances mean the same value.
+    if provenance.identifies_value()
         && let Some(scope) = scopes.last_mut()
     {
         // Collect bindings to narrow first to avoid borrow conflicts
